@@ -29,7 +29,34 @@ META = {
 
 CFG_NAMES = {"d": "default (debug on)", "x": "debug off", "p": "pass-through custom formatter", "n": "failing custom formatter",
              "a": "custom auto-escape format", "k": "keep_trailing_newline", "t": "trim_blocks+lstrip_blocks",
-             "c": "custom delimiters", "s": "strict undefined", "m": "semi-strict undefined", "h": "chainable undefined"}
+             "c": "custom delimiters", "s": "strict undefined", "m": "semi-strict undefined", "h": "chainable undefined",
+             "r": "recursion limit 1"}
+# Every instruction that the code generator emits through `CodeGenerator::add` (location = current line /
+# innermost span) AND that can fail in the VM (tables C14_CODEGEN_ADDS, C14_VM_FALLIBLE, regenerated from the
+# sources on every run).  "own": the generator pushes the construct's own span around the add;
+# "planted": failing cases with these id prefixes must exist and fail in the run; "benign": cannot produce
+# a template error that needs a location.
+SPANLESS_CLASS = {
+    "Add": ("benign", "only the integer counter of a filtered for loop is added through `add`; binary + sits under its own span"),
+    "ApplyFilter": ("own", "Filter expression span"), "PerformTest": ("own", "Test expression span"),
+    "CallFunction": ("own", "Call span"), "CallMethod": ("own", "Call span"), "CallObject": ("own", "Call span"),
+    "MergeKwargs": ("own", "Call / Filter span"), "UnpackLists": ("own", "Call / Filter span"),
+    "CompareAndPreserve": ("own", "Compare span"), "Eq": ("own", "Compare span"), "Ne": ("own", "Compare span"),
+    "Lt": ("own", "Compare span"), "Lte": ("own", "Compare span"), "Gt": ("own", "Compare span"),
+    "Gte": ("own", "Compare span"), "In": ("own", "Compare span"), "JumpIfFalseOrPop": ("own", "Compare span"),
+    "GetAttr": ("own", "GetAttr span"), "GetItem": ("own", "GetItem span"), "Slice": ("own", "Slice span"),
+    "SetAttr": ("own", "attribute target span"), "UnpackList": ("own", "list target span"),
+    "PushLoop": ("own", "iterable / filter expression span"), "Iterate": ("own", "iterable / filter expression span"),
+    "CallBlock": ("planted", ["block_body", "child_block", "print_none_block_", "sl_autoescape_block_", "sl_autoescape_child_block_"]),
+    "Emit": ("planted", ["sl_filter_emit_", "sl_callblock_emit_", "print_none_", "print_undef_"]),
+    "JumpIfFalse": ("planted", ["sl_ifexpr_jump_", "strict_if"]),
+    "Not": ("planted", ["sl_not_op_"]),
+    "PushAutoEscape": ("planted", ["sl_autoescape_", "autoescape_bad"]),
+    "PushWith": ("planted", ["sl_with_push_", "sl_import_push_", "sl_from_import_push_"]),
+    "EmitRaw": ("benign", "only a write failure of the output (C19)"),
+    "GetClosure": ("benign", "fails only on an internal invariant"), "Lookup": ("benign", "lookups do not fail"),
+}
+
 V_N = {0: 0, 1: 1, 2: 2, 3: 7, 4: 300, 5: None, 6: 70000}   # 5: fill up to exactly 65535 lines, 6: beyond the quantifier
 
 
@@ -159,7 +186,9 @@ def model_caret(span):
     return "c%dw%d" % (sc, max(0, ec - sc))
 
 
-def evaluate(r, text):
+def evaluate(r, text, tables=None):
+    tables = tables or {}
+    fallible = set(tables.get("C14_VM_FALLIBLE") or [])
     q = Queries()
     err_recs = collections.OrderedDict()   # id -> {(vi,hi): rec}
     classes = {}
@@ -182,11 +211,16 @@ def evaluate(r, text):
             do_ins(r, q, pending, case, f[3], res)
         elif f[0] == "tbl":
             do_tbl(r, q, pending, case, f[1], res)
-    for s in ("err", "lex", "ast", "ins", "tbl"):
+        elif f[0] == "cg":
+            do_cg(r, q, pending, case, f[1], res)
+        elif f[0] == "stm":
+            do_stm(r, case, res, fallible)
+    for s in ("err", "lex", "ast", "ins", "tbl", "cg", "stm"):
         if streams[s] == 0:
             r.broken.append(f"harness produced no `{s}` cases")
 
-    do_err(r, q, pending, err_recs, classes)
+    failing_ids = do_err(r, q, pending, err_recs, classes)
+    check_spanless_table(r, tables, failing_ids)
     if not q.run(r):
         return
     for fn in pending:
@@ -236,6 +270,7 @@ def expected_shift(b, rec, vi):
 
 def do_err(r, q, pending, err_recs, classes):
     fixed_total = fixed_fail = 0
+    failing_ids = set()
     print_fail = collections.Counter()
     for (cid, cfg), variants in err_recs.items():
         cls = classes[(cid, cfg)]
@@ -257,6 +292,7 @@ def do_err(r, q, pending, err_recs, classes):
             continue
         if counted:
             fixed_fail += 1
+        failing_ids.add(cid)
         if cid.startswith("print_") and cfg in ("p", "n", "a"):
             print_fail[cfg] += 1
         for (vi, hi), (case, rec) in variants.items():
@@ -277,7 +313,7 @@ def do_err(r, q, pending, err_recs, classes):
                 r.hist["located"]["range" if e.rs is not None else ("line only" if e.line is not None else "none")] += 1
                 check_error_static(r, case, e, d, rec, in_q)
             # --- the right line: some error of the chain points into the marked failing construct
-            if cls != "planted" and not rec["free"] and in_q:
+            if cls != "planted" and not rec["free"] and in_q and (cfg != "r" or cid.startswith("sl_")):
                 lo = rec["mline"] + rec["n"]
                 hi_ = lo + rec["mext"]
                 mine = [e for e in rec["errors"] if e.name == rec["shifted"] and e.line is not None]
@@ -332,6 +368,76 @@ def do_err(r, q, pending, err_recs, classes):
     r.extra["fixed_site_cases_failing"] = fixed_fail
     if fixed_total and fixed_fail * 10 < fixed_total * 9:
         r.broken.append(f"only {fixed_fail}/{fixed_total} fixed-site cases still produce an error: the case list no longer matches /repo")
+    return failing_ids
+
+
+def check_spanless_table(r, tables, failing_ids):
+    """every fallible instruction emitted through CodeGenerator::add is classified, and the planted ones fail"""
+    adds, fall = tables.get("C14_CODEGEN_ADDS"), tables.get("C14_VM_FALLIBLE")
+    if not adds or not fall:
+        return   # missing items are reported by regen_tables
+    sites = sorted(set(adds) & set(fall))
+    r.extra["spanless_fallible_sites"] = {}
+    for name in sites:
+        cl = SPANLESS_CLASS.get(name)
+        if cl is None:
+            r.broken.append(f"`CodeGenerator::add(Instruction::{name})` is a fallible instruction without explicit span that C14 has "
+                            "neither classified nor planted a failing case for")
+            continue
+        r.extra["spanless_fallible_sites"][name] = cl[0]
+        if cl[0] == "planted":
+            for prefix in cl[1]:
+                if not any(i.startswith(prefix) for i in failing_ids):
+                    r.broken.append(f"no failing planted case `{prefix}*` for the span-less site Instruction::{name}")
+
+
+# ---------------------------------------------------------------------------------------------- cg / stm streams
+def do_cg(r, q, pending, case, ops, res):
+    opl = [] if ops == "-" else ops.split(",")
+    r.count(case, any(o in ("a",) or o[0] == "s" for o in opl))
+    r.hist["cg_len"][str(min(len(opl), 10)) + ("+" if len(opl) >= 10 else "")] += 1
+    if res.startswith("panic|"):
+        r.oracle_failure(case, "code generator panics: " + unhexs(res[6:]), panic_site(unhexs(res[6:])))
+        return
+    key = q.add_raw("cg " + ops)
+
+    def check():
+        m = q.raw(key)
+        if m != res:
+            r.model_disagreement(case, res, m)
+    pending.append(check)
+
+
+def do_stm(r, case, res, fallible):
+    how, body = res.split("|", 1)
+    if how == "panic":
+        r.count(case, True)
+        r.oracle_failure(case, "compiling panics: " + unhexs(body), panic_site(unhexs(body)))
+        return
+    if how != "ok" or not body:
+        r.count(case, False)
+        return
+    r.count(case, True)
+    for part in body.split("|"):
+        head, _, instrs = part.partition("=")
+        kind, _, span = head.partition("@")
+        if span == "-" or not instrs:
+            continue
+        sl, sc, so, el, ec, eo = (int(v) for v in span.split(":"))
+        for pc, ent in enumerate(instrs.split(";")):
+            name, line, isp = ent.split("/")
+            r.hist["stm_instr"]["fallible" if name in fallible else "infallible"] += 1
+            if name not in fallible:
+                continue    # cannot raise: its location is never reported
+            if line == "-" or not (sl <= int(line) <= el):
+                r.oracle_failure(case, f"{kind} statement on lines {sl}..{el}: its instruction #{pc} {name} carries line {line} "
+                                 f"(span {isp}): an error raised there is reported outside the statement",
+                                 f"stm-line-outside:{kind}:{name}")
+            elif isp != "-":
+                sp = [int(v) for v in isp.split(":")]
+                if not (so <= sp[2] and sp[5] <= eo):
+                    r.oracle_failure(case, f"{kind} statement at bytes {so}..{eo}: its instruction #{pc} {name} carries the span "
+                                     f"{isp} of a different construct", f"stm-span-outside:{kind}:{name}")
 
 
 def err_model_check(r, q, key, e, case, d):
@@ -519,7 +625,7 @@ def run(r):
     r.assumptions = ["sources shorter than 2^32 bytes (offsets are stored as u32)",
                      "slice::binary_search_by_key meets its documented contract on sorted slices",
                      "shift invariance is claimed for templates of at most 65535 lines (u16 line counter saturates beyond)"]
-    r.regen_tables()
+    st = r.regen_tables(["C14_CODEGEN_ADDS", "C14_VM_FALLIBLE"])
     r.lean_prove("MJ.Props.C14", "MJ/Audit/C14.lean", extra_targets=["drive_c14"])
     exe = r.cargo_build("c14")
     if exe is None:
@@ -528,7 +634,7 @@ def run(r):
     if rc != 0:
         r.broken.append(f"harness c14 exited {rc}: {err[-300:]}")
         return
-    evaluate(r, out)
+    evaluate(r, out, st.get("items", {}))
 
 
 def replay(r, path):
